@@ -9,10 +9,32 @@ def run(tier, seed, args):
     if args.replay:
         filecommon.validate_runs(v, wd, filecommon.split_runs(args.replay), "replay", focus=("C12",))
         return v.finish()
+    # (A)+(B) the two bit-buffer machines: all operation sequences, invariants on the model, every edge replayed on the real types
+    import pagecommon, json, os
+    for side in ("w", "r"):
+        bad, n = pagecommon.mc_and_replay(v, wd, exe, "MC_Bits", {"MaxDepth": (4 if side == "r" else 3) if tier == "quick" else (5 if side == "r" else 4), "Side": f'"{side}"'},
+                                          ["WriteBufferIsPack", "ReadBufferIsTail"], [], "bits-replay", f"mcb_{side}")
+        for i, b in enumerate(bad[:5]):
+            rp = os.path.join(wd, "replay", f"bits_{side}_{i}.json")
+            json.dump(b, open(rp, "w"))
+            v.violation(f"MC_Bits:{side}:{b['kind']}:{json.dumps(b['case']['h'])[:80]}", rp, "real bit buffer disagrees with BitBuf on a model edge")
+    # (C) forward direction through the file
     ps = progs.c12_programs(seed, tier)
     filecommon.run_programs(v, wd, exe, ps, "c12", focus=("C12",))
+    # (C) backward direction: streams cut by the TLA+ encoder, decoded by the real reader
+    import c03, xmlproj
+    cases = [c for c in c03.encoder_cases(wd, tier == "thorough") if c["name"].startswith("w")]
+    inp, ncases = c03.build_inputs(cases, wd, "c12enc")
+    raw = os.path.join(wd, "c12enc.raw.ndjson")
+    vlib.harness(exe, ["e57-read", "--cases", inp, "--out", raw])
+    tr = os.path.join(wd, "c12enc.trace.ndjson")
+    xmlproj.augment_trace(raw, tr)
+    os.remove(raw); os.remove(inp)
+    filecommon.validate_runs(v, wd, filecommon.split_runs(tr), "c12enc", focus=("C12",), jobs=6, batch_events=400)
+    os.remove(tr)
+    v.add(encoder_cases=ncases)
     v.add(states=v.cov.get("trace_events", 0), transitions=v.cov.get("trace_events", 0),
-          rule="forward direction through the file: one case = one (width, sign of minimum) prototype with values at range extremes and alternating bit patterns; "
+          rule="bit-buffer machines: every edge of MC_Bits replayed on the real buffers; backward direction: every width x 9 values (all bit phases) x every cut of the stream into packets from the TLA+ encoder, decoded by the real reader; forward direction through the file: one case = one (width, sign of minimum) prototype with values at range extremes and alternating bit patterns; "
                "TLC extracts each record's stream from the data packets and requires it to equal the abstract LSB-first packing of value-min at width BitLen(max-min)",
           evaluations=v.cov.get("programs", 0), distinct_nontrivial=v.cov.get("traces_validated_against_impl", 0))
     v.assumptions += ["TLC, E57Format (abstract codec), harness recording code"]
